@@ -156,7 +156,7 @@ pub fn run_op(root: &Path, b: &Built) -> Ret {
             crate::shim::begin_op(0);
             let r = std::panic::catch_unwind(|| match &b.wspec {
                 DirSpec::Plain { dir, cap } => kismet_cache::plain::Cache::new(root.join(dir), *cap).temp_dir().map(|p| p.into_owned()),
-                DirSpec::Sharded { dir, shards, cap } => kismet_cache::sharded::Cache::new(root.join(dir), *shards, *cap).temp_dir(Some(b.key.key())).map(|p| p.into_owned()),
+                DirSpec::Sharded { dir, shards, cap } => kismet_cache::sharded::Cache::new(root.join(dir), *shards, *cap).temp_dir(if b.case.size == 17 { Some(b.key.key()) } else { None }).map(|p| p.into_owned()),
             });
             match r {
                 Ok(Ok(p)) => {
